@@ -3,7 +3,8 @@
 //! write-error offset and EVERY single-bit flip of the encoding (all bits when the encoding is at
 //! most 128 bytes long; otherwise every bit of the first 4 and last 16 bytes and of the first 16
 //! payload bytes, plus 64 seeded interior bits), and EVERY value (0..=255) of each of the first
-//! two bytes (tag / header / length bytes).
+//! two bytes (tag / header / length bytes); for textual records additionally every position x a set of
+//! parser-hostile characters, substituted and inserted.
 
 use crate::arms::{self, Framing};
 use crate::gen::{self, Restrict};
@@ -91,6 +92,33 @@ pub fn sweep_plans(seed: u64, restrict: &Restrict) -> SweepSet {
             let mut p = base.clone();
             p.medium.push(MFault::Sub { at, byte });
             plans.push(p);
+        }
+    }
+    // textual records (JSON strings, postgres text / JSON columns, ...): EVERY position (the first and last
+    // 32 when longer) x every character of a set that number parsers are known to trip over - signs, the
+    // ignored '_', digits on both sides of each alphabet's limit, prefix letters, quotes, exponent markers -
+    // as a substitution and as an insertion (added after the sub-agent change c17ac: "0x+1f" accepted)
+    if ops.len() == 1 {
+        let enc = (arm.ref_enc)(&base, &ops[0]);
+        if !enc.is_empty() && enc.len() == len && enc.iter().all(|b| (0x20..0x7f).contains(b) || *b == b'\n') {
+            const TEXTY: &[u8] = b"+-_ 09afgzAFGZxXobO/,=\"\\.eE#";
+            let positions: Vec<usize> = if len <= 64 { (0..len).collect() } else { (0..32).chain(len - 32..len).collect() };
+            for &at in &positions {
+                for &byte in TEXTY {
+                    if enc[at] != byte {
+                        let mut p = base.clone();
+                        p.medium.push(MFault::Sub { at, byte });
+                        plans.push(p);
+                    }
+                }
+                for &byte in b"+-_ 0x\"" {
+                    let mut bytes = enc.clone();
+                    bytes.insert(at, byte);
+                    let mut p = base.clone();
+                    p.medium.push(MFault::Garbage { rec: 0, bytes, forged: false });
+                    plans.push(p);
+                }
+            }
         }
     }
     SweepSet { base, plans, exhaustive_bits, enc_len: len }
